@@ -224,6 +224,9 @@ func c11Contents(r *Run, ts []pduType) {
 				continue
 			}
 			res := runAccessors(p)
+			if res.Skipped {
+				continue
+			}
 			in := fmt.Sprintf("value %s %+v", t.Name, p)
 			if frame != nil {
 				in = "frame " + hex.EncodeToString(frame)
